@@ -337,6 +337,21 @@ def check_cross(col, net, sp, P, Q, wit, nsi_only=False, sparse=True, capl=True)
         if not directed:
             col.same("cross_link_attribute/arg-symmetry", wit, r, c(net.cross_link_attribute, LA, Q, P), T)
             col.same("cross_path_lengths/arg-symmetry-linkattr", wit, rp, c(net.cross_path_lengths, Q, P, LA), T)
+        # history: the attribute is replaced on the same object and replaced back - every answer follows the current values
+        try:
+            W0 = np.array(net.link_attribute(LA), dtype=float)
+            W1 = 2.0 * W0 + (np.array(net.adjacency) != 0)
+            net.set_link_attribute(LA, W1)
+            Pi, Qi = np.array(P, dtype=int), np.array(Q, dtype=int)
+            col.expect("cross_link_attribute/after-set_link_attribute", wit, c(net.cross_link_attribute, LA, P, Q),
+                       W1[Pi][:, Qi].tolist())
+            col.expect("internal_link_attribute/after-set_link_attribute", wit, c(net.internal_link_attribute, LA, P),
+                       W1[Pi][:, Pi].tolist())
+            net.set_link_attribute(LA, W0)
+            col.expect("cross_link_attribute/after-set_link_attribute", wit, c(net.cross_link_attribute, LA, P, Q),
+                       W0[Pi][:, Qi].tolist())
+        except Exception as e_:                                     # noqa
+            col.failures.append(("cross_link_attribute/after-set_link_attribute", wit, "raised %r" % (e_,)))
 
     # ---- degrees
     rd = c(net.cross_degree, P, Q)
